@@ -237,12 +237,11 @@ func (t *FSTree) readHeader(id oid.ID, f *os.File, buf []byte) ([]byte, io.ReadS
 				}
 			}
 
-			rsc := io.ReadSeekCloser(f)
-			if buffered := uint32(size - offset); l > buffered {
-				rsc = &limitedFileReader{
-					ReadSeekCloser: f,
-					limit:          int64(l - buffered),
-				}
+			// the file continues with other objects, so the stream is limited
+			// even if nothing of this object is left in it
+			rsc := &limitedFileReader{
+				ReadSeekCloser: f,
+				limit:          int64(l - uint32(size-offset)),
 			}
 
 			return buf[offset:size], rsc, nil
